@@ -6,6 +6,7 @@ package main
 import (
 	"go/ast"
 	"go/constant"
+	"go/token"
 	"go/types"
 	"strings"
 )
@@ -15,8 +16,9 @@ func init() {
 		meta: propMeta{
 			Level: "other",
 			Explanation: "Decides the second sentence of the property on the indentation-aware lexer: (R1) INDENT tokens and pushes on the indent stack, DEDENT tokens and pops, come in pairs on every path (path automaton: a push without its INDENT, a DEDENT without its pop, etc. cannot reach a return or a loop back-edge), nothing else pushes or pops that stack, so #INDENT - #DEDENT equals the stack depth and is never negative; each pop is entailed by a non-empty stack (or by the reviewed width argument); " +
-				"(R2) the EOF token is enqueued exactly once per EOF of the base lexer, and only when the indent stack is entailed empty (after the draining loop).",
-			NotDecided:  "the first sentence: exact FIFO/LIFO behaviour of Queue and Stack over all operation histories depends on index arithmetic across growth and wrap-around, a state space static rules do not bound (needs model checking or exhaustive exploration, a different family)",
+				"(R2) the EOF token is enqueued exactly once per EOF of the base lexer, and only when the indent stack is entailed empty (after the draining loop); " +
+				"(R3) of the first sentence only a shape condition it depends on: the queue wraps indices modulo cap(buffer) and addresses elements within len(buffer), so every value stored in the buffer field must have len == cap (a two-argument make) — a re-sliced or appended buffer loses elements or panics after the next wrap.",
+			NotDecided:  "the first sentence beyond R3: exact FIFO/LIFO behaviour of Queue and Stack over all operation histories depends on index arithmetic across growth and wrap-around, a state space static rules do not bound (needs model checking or exhaustive exploration, a different family)",
 			Assumptions: []string{"A3 (the base lexer delivers one EOF token)", "A4"},
 			Trusted:     []string{"go/types", "golang.org/x/tools/go/cfg", "go/packages loader"},
 		},
@@ -52,6 +54,8 @@ func checkC20(c *Ctx) {
 	lx := w.lexer()
 	c.rule("C20.R1", "INDENT <-> push and DEDENT <-> pop are paired on every path of the lexer's handlers; no other push/pop of the indent stack; every pop is entailed by a non-empty stack or the reviewed width argument", 5)
 	c.rule("C20.R2", "the EOF token is enqueued exactly once per EOF, entailed by an empty indent stack (after the drain)", 2)
+	c.rule("C20.R3", "ring buffer shape: where the queue's index arithmetic is modulo cap(buffer) while elements are addressed through the buffer (bounded by len), every value ever stored in the buffer field has len == cap (a two-argument make), so that the two agree", 1)
+	c20R3(c)
 	if !lx.ok(c, "C20") {
 		return
 	}
@@ -404,4 +408,122 @@ func dedentLoopShape(w *World, lx *lexerModel, pop *ast.CallExpr) bool {
 		return isWidth(b.X) && isPrev(b.Y)
 	}
 	return isWidth(b.Y) && isPrev(b.X)
+}
+
+// c20R3: a necessary condition of the first sentence that is visible in the shape of the code. The ring arithmetic of
+// Queue wraps indices modulo cap(base) and addresses elements as base[i], which Go bounds by len(base). The two agree
+// only while len(base) == cap(base); a buffer that is re-sliced, appended to, or made with a separate capacity breaks
+// that, and with it the queue (lost elements or a run-time panic after the first wrap). Decides this shape only — not
+// FIFO order, which depends on the joint values of head, tail and capacity over histories.
+func c20R3(c *Ctx) {
+	w := c.W
+	cp := w.Pkg("internal/container")
+	if cp == nil {
+		c.undecided("C20.R3", "package internal/container not found")
+		return
+	}
+	info := cp.TypesInfo
+	// slice-typed fields of generic struct types of the package that are used under cap(…) in a modulus
+	usesCap := map[*types.Var]token.Pos{}
+	for _, f := range w.FuncsIn(cp) {
+		if f.Body == nil {
+			continue
+		}
+		ast.Inspect(f.Body, func(n ast.Node) bool {
+			b, ok := n.(*ast.BinaryExpr)
+			if !ok || b.Op != token.REM {
+				return true
+			}
+			if call, ok := unparen(b.Y).(*ast.CallExpr); ok && isBuiltin(info, call, "cap") && len(call.Args) == 1 {
+				if fld := lastField(info, call.Args[0]); fld != nil {
+					fld = fld.Origin() // one field, whatever the method's receiver type parameters
+					if _, ok := usesCap[fld]; !ok {
+						usesCap[fld] = call.Pos()
+					}
+				}
+			}
+			return true
+		})
+	}
+	if len(usesCap) == 0 {
+		c.ob("C20.R3", "internal/container/ring-arithmetic", "-", true, "no index arithmetic modulo cap(buffer) in the package: the rule has nothing to require")
+		return
+	}
+	for fld, pos := range usesCap {
+		n := 0
+		for _, f := range w.FuncsIn(cp) {
+			if f.Body == nil {
+				continue
+			}
+			c.fn(f)
+			ast.Inspect(f.Body, func(q ast.Node) bool {
+				as, ok := q.(*ast.AssignStmt)
+				if !ok {
+					return true
+				}
+				for i, l := range as.Lhs {
+					if _, isSel := unparen(l).(*ast.SelectorExpr); !isSel || lastField(info, l) == nil || lastField(info, l).Origin() != fld {
+						continue
+					}
+					n++
+					key := f.Name + "/" + fld.Name() + "#" + itoa(n)
+					if len(as.Rhs) != len(as.Lhs) {
+						c.ob("C20.R3", key, w.Pos(as.Pos()), false, "the buffer is assigned from a multi-value expression")
+						continue
+					}
+					ok, why := fullLengthSlice(w, f, as.Rhs[i], 0)
+					c.ob("C20.R3", key, w.Pos(as.Pos()), ok, map[bool]string{true: "the buffer receives " + why + " (len == cap)", false: "the buffer receives " + why + ": its length and capacity can differ, while indices wrap modulo cap (" + w.Pos(pos) + ") and elements are addressed within len — elements would be lost or the queue would panic after the next wrap-around"}[ok])
+				}
+				return true
+			})
+			// appends through the field, or its address escaping, also change len independently of cap
+			ast.Inspect(f.Body, func(q ast.Node) bool {
+				if u, ok := q.(*ast.UnaryExpr); ok && u.Op == token.AND && lastField(info, u.X) != nil && lastField(info, u.X).Origin() == fld {
+					if _, isSel := unparen(u.X).(*ast.SelectorExpr); isSel {
+						n++
+						c.ob("C20.R3", f.Name+"/"+fld.Name()+"#"+itoa(n), w.Pos(u.Pos()), false, "the address of the buffer field is taken: its length can change out of sight of this rule")
+					}
+				}
+				return true
+			})
+		}
+		if n == 0 {
+			c.ob("C20.R3", "container/"+fld.Name(), w.Pos(pos), false, "the buffer field is never assigned a made slice")
+		}
+	}
+}
+
+// fullLengthSlice: make([]T, n) (two arguments), nil, or a local assigned once to such a value.
+func fullLengthSlice(w *World, f *Func, e ast.Expr, depth int) (bool, string) {
+	info := f.Pkg.TypesInfo
+	switch x := unparen(e).(type) {
+	case *ast.CallExpr:
+		if isBuiltin(info, x, "make") {
+			if len(x.Args) == 2 {
+				return true, "make with a length only"
+			}
+			if len(x.Args) == 3 && exprStr(x.Args[1]) == exprStr(x.Args[2]) && simpleExpr(info, x.Args[1]) {
+				return true, "make with identical length and capacity"
+			}
+			return false, "make with a capacity different from its length"
+		}
+		if isBuiltin(info, x, "append") {
+			return false, "the result of append (capacity chosen by the runtime)"
+		}
+	case *ast.Ident:
+		if x.Name == "nil" {
+			return true, "nil"
+		}
+		if obj, ok := info.Uses[x].(*types.Var); ok && depth < 3 {
+			xp := w.expander(f)
+			if rhs, _, _, ok := xp.def(obj); ok && rhs != nil {
+				// the local must not be re-sliced or appended to in between: it is assigned exactly once (def) and slices
+				// are values — only an append/reslice assigned back would change it, which def excludes
+				return fullLengthSlice(w, f, rhs, depth+1)
+			}
+		}
+	case *ast.SliceExpr:
+		return false, "a re-slice " + exprStr(x)
+	}
+	return false, exprStr(e)
 }
